@@ -11,7 +11,8 @@ patterns (decimal `Nat`) of `np.double(beta)` / `np.double(input_scale)`.
 * `smexp <beta bits> <scale bits>` → `ok v0 … v255 | err:<kind>`: `Model/SoftmaxTable.lean`; the rounding product
   `double(beta) * double(input_scale) * 2^26` is evaluated here with IEEE `Float` and handed to the model as exact
   integers.
-* `smexpq <beta bits> <scale bits>` → `ok <multiplier> <shift>`: the model's `quantise_scale(real_beta)` step.
+* `smexpq <beta bits> <scale bits>` → `ok <multiplier> <shift>`: the model's `quantise_scale(real_beta)` step (before the
+  renormalisation of a multiplier `2^31`; used to count how often that corner is exercised).
 * `smexpchk <beta bits> <scale bits> v0 … v255` → verdict of `Spec/SoftmaxRef.lean` (exact integer arithmetic, no
   `Float`) on the *given* table: `1 mult <m> lshift <s>` | `0 index i expected e got g mult <m> lshift <s>` |
   `na` (a `TFLITE_CHECK` of the reference fails or an argument is not a positive finite double).
